@@ -5,7 +5,7 @@
    libraries directly. *)
 From Coq Require Import List NArith Bool.
 Import ListNotations.
-Require Import Opt Bytes Kernel Footer Streams Spec.
+Require Import Opt Bytes Kernel Footer Streams Spec Automata Dict.
 Open Scope N_scope.
 
 
@@ -40,6 +40,8 @@ Fixpoint repeat_dec {X} (k : nat) (dec : bytes -> option (X * bytes)) (bs : byte
 Definition count_ok (file : bytes) (n : N) : bool := n <? max_count.
 
 Definition none64 : N := 18446744073709551615.
+Fixpoint somes_ {X} (l : list (option X)) : list X :=
+  match l with [] => [] | Some x :: r => x :: somes_ r | None :: r => somes_ r end.
 
 Section Parse.
 Variable dec_fst : bytes -> option (list (str * N)).      (* ascending (key, value) pairs *)
@@ -165,6 +167,39 @@ Definition dict_at (file : bytes) (ft : list frec) (mode ndocs : N) (dictLoc : N
   do (fb, _) <- take fl r;
   do kvs <- dec_fst fb;
   mapopt (fun kv => do hs <- postings_at file ft mode ndocs (snd kv); Some (fst kv, hs)) kvs.
+
+(* the dictionary of one field as (term, kind of FST value): what DictionaryIterator decodes *)
+Definition fstval_at (file : bytes) (v : N) : option fstval :=
+  if is1hit v then let '(d, nrm) := dec1hit v in Some (OneHit d nrm)
+  else
+    do bs <- at_off file v;
+    do (_, r1) <- dec_uv bs;
+    do (_, r2) <- dec_uv r1;
+    do (rl, r3) <- dec_uv r2;
+    do (rb, _) <- take rl r3;
+    do docs <- dec_roar rb;
+    Some (General (N.of_nat (length docs))).
+
+Definition dict_entries (file : bytes) (field : str) : option (list (str * fstval)) :=
+  do (pm, _) <- Footer.parse file;
+  let '(_, ft0) := pm in
+  do ft <- field_table file (sectionsIdx ft0);
+  match find (fun fr => seqb (fst fr) field) (somes_ ft) with
+  | None => Some []
+  | Some (_, secs) =>
+      let inv := sec_addr secs sec_inverted in
+      if inv =? 0 then Some [] else
+      do bs <- at_off file inv;
+      do (_, r1) <- dec_uv bs;
+      do (_, r2) <- dec_uv r1;
+      do (dl, _) <- dec_uv r2;
+      if dl =? 0 then Some [] else
+      do ds <- at_off file dl;
+      do (fl, r) <- dec_uv ds;
+      do (fb, _) <- take fl r;
+      do kvs <- dec_fst fb;
+      mapopt (fun kv => do fv <- fstval_at file (snd kv); Some (fst kv, fv)) kvs
+  end.
 
 (* ---------- doc values ---------- *)
 (* split on the 0xff separator: every term is followed by one *)
